@@ -1,6 +1,7 @@
 import GroupbyVerif.Model.Proto
 import GroupbyVerif.Model.Align
 import GroupbyVerif.Model.Facade
+import GroupbyVerif.Model.Margins
 
 /-!
 # gbdriver — executable model behind the line protocol
@@ -189,6 +190,51 @@ def opResolve (kv : KV) : Option String := do
     | some r => s!"keys:{"|".intercalate (r.keys.map showKey)};values:{",".intercalate r.valueColumns}"
   pure s!"model={out} spec={out}"
 
+/-- `margins fn=<sum|max|min|mean> n=<levels> levels=<_|l1,l2> data=<l.l:v;...>`: `add_row_margin` on a table of
+per-group results (`v` = integer; `_` = null for max / min; `s/c` for mean).  `model=` is the recursive
+algorithm, `spec=` the aggregate of the rows each output pattern summarises. -/
+def opMargins (kv : KV) : Option String := do
+  let fn ← get kv "fn"
+  let n ← parseNat (← get kv "n")
+  let lv ← get kv "levels"
+  let levels ← if lv == "_" then pure none else ((splitComma lv).mapM parseNat).map some
+  let items := ((← get kv "data").splitOn ";").filter (· ≠ "")
+  let showPat : Pat Int → String := fun p => ".".intercalate (p.map fun | none => "A" | some k => toString k)
+  let parseRow : String → Option (List Int × String) := fun t =>
+    match t.splitOn ":" with
+    | [l, v] => ((l.splitOn ".").mapM parseInt).map fun lab => (lab, v)
+    | _ => none
+  let rows ← items.mapM parseRow
+  if rows.any (fun r => r.1.length ≠ n) then none
+  let join : List String → String := fun xs => if xs.isEmpty then "-" else "|".intercalate xs
+  match fn with
+  | "sum" =>
+    let data ← rows.mapM fun r => (parseInt r.2).map fun v => (r.1, v)
+    let out := lastWins (addRowMargin (fun a b : Int => a + b) 0 n levels data)
+    let model := join (out.map fun r => s!"{showPat r.1}:{r.2}")
+    let spec := join (out.map fun r => s!"{showPat r.1}:{directAgg (fun a b : Int => a + b) 0 data r.1}")
+    pure s!"model={model} spec={spec}"
+  | "max" | "min" =>
+    let op := if fn == "max" then omax else omin
+    let data ← rows.mapM fun r => (if r.2 == "_" then some none else (parseInt r.2).map some).map fun v => (r.1, v)
+    let sh : Option Int → String := fun | none => "_" | some v => toString v
+    let out := lastWins (addRowMargin op none n levels data)
+    let model := join (out.map fun r => s!"{showPat r.1}:{sh r.2}")
+    let spec := join (out.map fun r => s!"{showPat r.1}:{sh (directAgg op none data r.1)}")
+    pure s!"model={model} spec={spec}"
+  | "mean" =>
+    let data ← rows.mapM fun r =>
+      match r.2.splitOn "/" with
+      | [a, b] => do pure (r.1, (← parseInt a), (← parseInt b))
+      | _ => none
+    let out := lastWins (meanMargins n levels data)
+    let sh : Option Int → String := fun | none => "_" | some v => toString v
+    let model := join (out.map fun r => s!"{showPat r.1}:{r.2.1}/{sh r.2.2}")
+    let spec := join (out.map fun r =>
+      s!"{showPat r.1}:{directAgg (fun a b : Int => a + b) 0 (data.map fun d => (d.1, d.2.1)) r.1}/{directAgg (fun a b : Int => a + b) 0 (data.map fun d => (d.1, d.2.2)) r.1}")
+    pure s!"model={model} spec={spec}"
+  | _ => none
+
 def opScalar (kv : KV) : Option String := do
   let fn ← get kv "fn"
   let k ← parseKind (← get kv "kind")
@@ -218,6 +264,7 @@ def step (line : String) : String :=
       | "resolve" => opResolve kv
       | "firstlast" => opFirstLast kv
       | "mono" => opMono kv
+      | "margins" => opMargins kv
       | _ => none
     r.getD "bad-op"
 
